@@ -181,11 +181,17 @@ func (v *rolesVocab) script(tok string) []byte {
 	return append([]byte{}, s...)
 }
 
+// normEmpty: the projection used to compare a packet with its re-parsed self identifies nil and empty
+var normEmpty = false
+
 func (v *rolesVocab) scriptName(s []byte) string {
 	if s == nil {
 		return "n"
 	}
 	if len(s) == 0 {
+		if normEmpty {
+			return "n"
+		}
 		return "e"
 	}
 	if n, ok := v.nameOf[hex.EncodeToString(s)]; ok {
@@ -229,6 +235,15 @@ func (v *rolesVocab) derSig(k int, hashType int) []byte {
 	return append(append([]byte{}, s...), byte(hashType))
 }
 
+// tapSig: a schnorr-signature-shaped blob; a 65-byte one ends in 0x03 (SIGHASH_SINGLE)
+func tapSig(n int, b byte) []byte {
+	x := fill(n, b)
+	if n == 65 {
+		x[64] = 0x03
+	}
+	return x
+}
+
 func fill(n int, b byte) []byte {
 	x := make([]byte, n)
 	for i := range x {
@@ -252,7 +267,7 @@ func (v *rolesVocab) utxo(scriptTok string, conf bool) *transaction.TxOutput {
 // ---------------------------------------------------------------- creator arguments
 
 type inArgA struct {
-	cls, t                   int
+	cls, t                 int
 	idx, seq, height, time uint32
 }
 type outArgA struct {
@@ -323,7 +338,9 @@ func (g fakeGenerator) ComputeAndAddToScalarOffset(s []byte, v uint64, a, b []by
 	}
 	return scalarBytes(g.scalar), nil
 }
-func (g fakeGenerator) SubtractScalars(a, b []byte) ([]byte, error) { return scalarBytes(g.scalar), nil }
+func (g fakeGenerator) SubtractScalars(a, b []byte) ([]byte, error) {
+	return scalarBytes(g.scalar), nil
+}
 func (g fakeGenerator) LastValueCommitment(v uint64, a, b []byte) ([]byte, error) {
 	if g.gfail == 2 {
 		return nil, fmt.Errorf("commitment oracle says no")
@@ -512,12 +529,12 @@ func (v *rolesVocab) readOp(t *Toks) histOp {
 		}}
 	case "tapkeysig":
 		i, n := t.Int(), t.Int()
-		return histOp{name, func(p *psetv2.Pset) error { return U(p).SignTaprootInputKeySig(i, fill(n, 0xc1)) }}
+		return histOp{name, func(p *psetv2.Pset) error { return U(p).SignTaprootInputKeySig(i, tapSig(n, 0xc1)) }}
 	case "tapscriptsig":
 		i, pkl, sl, leaf, lhok, pkid := t.Int(), t.Int(), t.Int(), t.Int(), t.Int(), t.Int()
 		s := psetv2.TapScriptSig{}
 		s.PubKey = append([]byte{}, v.xonly[pkid][:pkl]...)
-		s.Signature = fill(sl, 0xc2)
+		s.Signature = tapSig(sl, 0xc2)
 		s.LeafHash = append([]byte{}, v.leafHash[leaf]...)
 		if lhok == 0 {
 			s.LeafHash = s.LeafHash[:31]
@@ -718,7 +735,8 @@ func (v *rolesVocab) projOutput(o *psetv2.Output) string {
 	return strings.Join(f, ",")
 }
 
-// roundTrip: same / diff / fail / sererr
+// roundTrip: same / diff / fail / sererr. "same" = ToBase64, parse, ToBase64 gives the same string
+// AND the parsed packet has the same projection (nil and empty identified); "diff" otherwise.
 func roundTrip(p *psetv2.Pset) (string, string) {
 	b64, err := p.ToBase64()
 	if err != nil {
@@ -730,12 +748,19 @@ func roundTrip(p *psetv2.Pset) (string, string) {
 	}
 	again, err := q.ToBase64()
 	if err != nil || again != b64 {
-		return "diff", ""
+		return "diff", "bytes"
+	}
+	v := vocab()
+	normEmpty = true
+	a, b := v.projCore(p), v.projCore(q)
+	normEmpty = false
+	if a != b {
+		return "diff", diffDetail(a+"|", b+"|")
 	}
 	return "same", ""
 }
 
-func (v *rolesVocab) projPset(p *psetv2.Pset) string {
+func (v *rolesVocab) projCore(p *psetv2.Pset) string {
 	flags := "n"
 	if p.Global.TxModifiable != nil {
 		flags = fmt.Sprint(p.Global.TxModifiable.Uint8())
@@ -759,9 +784,13 @@ func (v *rolesVocab) projPset(p *psetv2.Pset) string {
 	for i := range p.Outputs {
 		outs = append(outs, v.projOutput(&p.Outputs[i]))
 	}
+	return fmt.Sprintf("g:%d.%d.%s.%s.%s.lt%d|%s|%s", p.Global.InputCount, p.Global.OutputCount, flags, fb, sc, p.Locktime(),
+		strings.Join(ins, ";"), strings.Join(outs, ";"))
+}
+
+func (v *rolesVocab) projPset(p *psetv2.Pset) string {
 	rt, _ := roundTrip(p)
-	return fmt.Sprintf("g:%d.%d.%s.%s.%s.lt%d|%s|%s|rt:%s", p.Global.InputCount, p.Global.OutputCount, flags, fb, sc, p.Locktime(),
-		strings.Join(ins, ";"), strings.Join(outs, ";"), rt)
+	return v.projCore(p) + "|rt:" + rt
 }
 
 // ---------------------------------------------------------------- running a history
@@ -850,4 +879,3 @@ func runHist(t *Toks) string {
 	})
 	return "new=" + res + b.String()
 }
-
